@@ -335,7 +335,7 @@ def run(ctx):
             )
         else:
             tdis[b["clause"]] = tdis.get(b["clause"], 0) + 1
-    st = selftest(cases[len(reps)])
+    st = selftest(cases[len(reps)]) if not ctx.violations else {"skipped": "violations were found by the main run"}
     nontrivial = set()
     for c in cases:
         if c["d"] + c["dho"] > 0 and c["cls"] not in ("zero",):
